@@ -1,7 +1,666 @@
 package instr
 
-import "fmt"
+import (
+	"bytes"
+	"fmt"
+	"go/ast"
+	"go/parser"
+	"go/printer"
+	"go/token"
+	"strconv"
+	"strings"
+)
 
+const (
+	vschedImport = "gonum.org/v1/gonum/internal/verif/vsched"
+	vsyncImport  = "gonum.org/v1/gonum/internal/verif/vsync"
+	vrtImport    = "gonum.org/v1/gonum/internal/verif/vrt"
+	vrandImport  = "gonum.org/v1/gonum/internal/verif/vrand"
+)
+
+// ChanFields lists struct field names known to be channel typed in the
+// packages being rewritten (collected in a first pass by CollectChanFields).
+var chanFieldNames = map[string]bool{}
+
+// rewriteSched rewrites channel types and operations, select, go statements,
+// range-over-channel loops and the sync/runtime imports of one file.
 func rewriteSched(rel string, src []byte) ([]byte, error) {
-	return nil, fmt.Errorf("sched mode not implemented yet")
+	fset := token.NewFileSet()
+	f, err := parser.ParseFile(fset, rel, src, parser.ParseComments)
+	if err != nil {
+		return nil, err
+	}
+	r := &rw{fset: fset, file: f}
+	r.collectChanFields()
+	r.rewriteImports()
+	r.file.Decls = r.decls(r.file.Decls)
+	if r.err != nil {
+		return nil, r.err
+	}
+	if r.usedSched {
+		addImport(f, "vsched", vschedImport)
+	}
+	// comments are dropped: positions no longer match the rewritten tree.
+	f.Comments = keepDirectives(f)
+	var buf bytes.Buffer
+	if err := (&printer.Config{Mode: printer.UseSpaces | printer.TabIndent, Tabwidth: 8}).Fprint(&buf, token.NewFileSet(), f); err != nil {
+		return nil, err
+	}
+	out := buf.Bytes()
+	// build constraints must survive (they precede the package clause).
+	if hdr := buildHeader(src); hdr != "" && !bytes.Contains(out, []byte("//go:build")) {
+		out = append([]byte(hdr+"\n"), out...)
+	}
+	return out, nil
+}
+
+func buildHeader(src []byte) string {
+	var hdr []string
+	for _, l := range strings.Split(string(src), "\n") {
+		t := strings.TrimSpace(l)
+		if strings.HasPrefix(t, "package ") {
+			break
+		}
+		if strings.HasPrefix(t, "//go:build") || strings.HasPrefix(t, "// +build") {
+			hdr = append(hdr, t)
+		}
+	}
+	if len(hdr) == 0 {
+		return ""
+	}
+	return strings.Join(hdr, "\n") + "\n"
+}
+
+func keepDirectives(f *ast.File) []*ast.CommentGroup { return nil }
+
+type rw struct {
+	fset      *token.FileSet
+	file      *ast.File
+	usedSched bool
+	err       error
+	tmp       int
+}
+
+func (r *rw) fail(n ast.Node, format string, a ...any) {
+	if r.err == nil {
+		r.err = fmt.Errorf("%s: %s", r.fset.Position(n.Pos()), fmt.Sprintf(format, a...))
+	}
+}
+
+func (r *rw) fresh(prefix string) string {
+	r.tmp++
+	return fmt.Sprintf("_vs%s%d", prefix, r.tmp)
+}
+
+func sel(pkg, name string) ast.Expr {
+	return &ast.SelectorExpr{X: ast.NewIdent(pkg), Sel: ast.NewIdent(name)}
+}
+
+func (r *rw) sched(name string) ast.Expr {
+	r.usedSched = true
+	return sel("vsched", name)
+}
+
+func addImport(f *ast.File, name, path string) {
+	for _, im := range f.Imports {
+		if p, _ := strconv.Unquote(im.Path.Value); p == path {
+			return
+		}
+	}
+	spec := &ast.ImportSpec{Name: ast.NewIdent(name), Path: &ast.BasicLit{Kind: token.STRING, Value: strconv.Quote(path)}}
+	gd := &ast.GenDecl{Tok: token.IMPORT, Specs: []ast.Spec{spec}}
+	f.Decls = append([]ast.Decl{gd}, f.Decls...)
+	f.Imports = append(f.Imports, spec)
+}
+
+func (r *rw) rewriteImports() {
+	for _, im := range r.file.Imports {
+		p, _ := strconv.Unquote(im.Path.Value)
+		var np, name string
+		switch p {
+		case "sync":
+			np, name = vsyncImport, "sync"
+		case "runtime":
+			np, name = vrtImport, "runtime"
+		case "math/rand/v2":
+			if !enableVrand {
+				continue
+			}
+			np, name = vrandImport, "rand"
+		default:
+			continue
+		}
+		if im.Name != nil {
+			name = im.Name.Name
+		}
+		im.Path.Value = strconv.Quote(np)
+		im.Name = ast.NewIdent(name)
+	}
+}
+
+// enableVrand turns on the math/rand/v2 twin (set per Rewrite call).
+var enableVrand = false
+
+// collectChanFields records the names of channel-typed struct fields of this file.
+func (r *rw) collectChanFields() {
+	ast.Inspect(r.file, func(n ast.Node) bool {
+		if st, ok := n.(*ast.StructType); ok {
+			for _, fl := range st.Fields.List {
+				if _, ok := fl.Type.(*ast.ChanType); ok {
+					for _, nm := range fl.Names {
+						chanFieldNames[nm.Name] = true
+					}
+				}
+			}
+		}
+		return true
+	})
+}
+
+// isChanExpr decides syntactically (via the parser's object resolution)
+// whether e denotes a channel.
+func (r *rw) isChanExpr(e ast.Expr) bool {
+	switch e := e.(type) {
+	case *ast.ParenExpr:
+		return r.isChanExpr(e.X)
+	case *ast.Ident:
+		if e.Obj == nil {
+			return false
+		}
+		switch d := e.Obj.Decl.(type) {
+		case *ast.Field:
+			return isChanType(d.Type)
+		case *ast.ValueSpec:
+			if d.Type != nil {
+				return isChanType(d.Type)
+			}
+			for i, nm := range d.Names {
+				if nm.Name == e.Name && i < len(d.Values) {
+					return isMakeChan(d.Values[i])
+				}
+			}
+		case *ast.AssignStmt:
+			if len(d.Lhs) == len(d.Rhs) {
+				for i, l := range d.Lhs {
+					if id, ok := l.(*ast.Ident); ok && id.Name == e.Name {
+						return isMakeChan(d.Rhs[i]) || r.isChanExpr(d.Rhs[i])
+					}
+				}
+			}
+		}
+		return false
+	case *ast.SelectorExpr:
+		return chanFieldNames[e.Sel.Name]
+	}
+	return false
+}
+
+func isChanType(t ast.Expr) bool {
+	switch t := t.(type) {
+	case *ast.ChanType:
+		return true
+	case *ast.ParenExpr:
+		return isChanType(t.X)
+	case *ast.StarExpr:
+		// already rewritten *vsched.Chan[T]
+		if ix, ok := t.X.(*ast.IndexExpr); ok {
+			if s, ok := ix.X.(*ast.SelectorExpr); ok {
+				if id, ok := s.X.(*ast.Ident); ok && id.Name == "vsched" && s.Sel.Name == "Chan" {
+					return true
+				}
+			}
+		}
+	}
+	return false
+}
+
+func isMakeChan(e ast.Expr) bool {
+	c, ok := e.(*ast.CallExpr)
+	if !ok {
+		return false
+	}
+	if id, ok := c.Fun.(*ast.Ident); ok && id.Name == "make" && len(c.Args) > 0 {
+		return isChanType(c.Args[0])
+	}
+	// already rewritten vsched.MakeChan[T](n)
+	if ix, ok := c.Fun.(*ast.IndexExpr); ok {
+		if s, ok := ix.X.(*ast.SelectorExpr); ok && s.Sel.Name == "MakeChan" {
+			return true
+		}
+	}
+	return false
+}
+
+func (r *rw) decls(ds []ast.Decl) []ast.Decl {
+	for _, d := range ds {
+		switch d := d.(type) {
+		case *ast.FuncDecl:
+			if d.Recv != nil {
+				r.fieldList(d.Recv)
+			}
+			r.funcType(d.Type)
+			if d.Body != nil {
+				d.Body = r.block(d.Body)
+			}
+		case *ast.GenDecl:
+			r.genDecl(d)
+		}
+	}
+	return ds
+}
+
+func (r *rw) genDecl(d *ast.GenDecl) {
+	for _, s := range d.Specs {
+		switch s := s.(type) {
+		case *ast.ValueSpec:
+			if s.Type != nil {
+				s.Type = r.typ(s.Type)
+			}
+			for i := range s.Values {
+				// v, ok := <-ch in a var declaration
+				if len(s.Names) == 2 && len(s.Values) == 1 {
+					if u, ok := s.Values[0].(*ast.UnaryExpr); ok && u.Op == token.ARROW {
+						s.Values[0] = r.call(r.expr(u.X), "Recv2")
+						continue
+					}
+				}
+				s.Values[i] = r.expr(s.Values[i])
+			}
+		case *ast.TypeSpec:
+			if s.TypeParams != nil {
+				r.fieldList(s.TypeParams)
+			}
+			s.Type = r.typ(s.Type)
+		}
+	}
+}
+
+func (r *rw) fieldList(fl *ast.FieldList) {
+	if fl == nil {
+		return
+	}
+	for _, f := range fl.List {
+		f.Type = r.typ(f.Type)
+	}
+}
+
+func (r *rw) funcType(ft *ast.FuncType) {
+	if ft == nil {
+		return
+	}
+	r.fieldList(ft.TypeParams)
+	r.fieldList(ft.Params)
+	r.fieldList(ft.Results)
+}
+
+// typ rewrites a type expression.
+func (r *rw) typ(t ast.Expr) ast.Expr {
+	switch t := t.(type) {
+	case nil:
+		return nil
+	case *ast.ChanType:
+		return &ast.StarExpr{X: &ast.IndexExpr{X: r.sched("Chan"), Index: r.typ(t.Value)}}
+	case *ast.StarExpr:
+		t.X = r.typ(t.X)
+	case *ast.ArrayType:
+		if t.Len != nil {
+			t.Len = r.expr(t.Len)
+		}
+		t.Elt = r.typ(t.Elt)
+	case *ast.MapType:
+		t.Key = r.typ(t.Key)
+		t.Value = r.typ(t.Value)
+	case *ast.FuncType:
+		r.funcType(t)
+	case *ast.StructType:
+		r.fieldList(t.Fields)
+	case *ast.InterfaceType:
+		r.fieldList(t.Methods)
+	case *ast.ParenExpr:
+		t.X = r.typ(t.X)
+	case *ast.Ellipsis:
+		t.Elt = r.typ(t.Elt)
+	case *ast.IndexExpr:
+		t.X = r.typ(t.X)
+		t.Index = r.typ(t.Index)
+	case *ast.IndexListExpr:
+		t.X = r.typ(t.X)
+		for i := range t.Indices {
+			t.Indices[i] = r.typ(t.Indices[i])
+		}
+	}
+	return t
+}
+
+func (r *rw) call(recv ast.Expr, method string, args ...ast.Expr) ast.Expr {
+	switch recv.(type) {
+	case *ast.Ident, *ast.SelectorExpr, *ast.CallExpr, *ast.IndexExpr, *ast.ParenExpr:
+	default:
+		recv = &ast.ParenExpr{X: recv}
+	}
+	r.usedSched = true
+	return &ast.CallExpr{Fun: &ast.SelectorExpr{X: recv, Sel: ast.NewIdent(method)}, Args: args}
+}
+
+// expr rewrites an expression (which may contain types, e.g. in conversions,
+// composite literals and function literals).
+func (r *rw) expr(e ast.Expr) ast.Expr {
+	switch e := e.(type) {
+	case nil:
+		return nil
+	case *ast.UnaryExpr:
+		if e.Op == token.ARROW {
+			return r.call(r.expr(e.X), "Recv")
+		}
+		e.X = r.expr(e.X)
+	case *ast.BinaryExpr:
+		e.X = r.expr(e.X)
+		e.Y = r.expr(e.Y)
+	case *ast.CallExpr:
+		if id, ok := e.Fun.(*ast.Ident); ok && id.Obj == nil {
+			switch id.Name {
+			case "make":
+				if len(e.Args) > 0 {
+					if ct, ok := e.Args[0].(*ast.ChanType); ok {
+						var n ast.Expr = &ast.BasicLit{Kind: token.INT, Value: "0"}
+						if len(e.Args) > 1 {
+							n = r.expr(e.Args[1])
+						}
+						return &ast.CallExpr{Fun: &ast.IndexExpr{X: r.sched("MakeChan"), Index: r.typ(ct.Value)}, Args: []ast.Expr{n}}
+					}
+					e.Args[0] = r.typ(e.Args[0])
+					for i := 1; i < len(e.Args); i++ {
+						e.Args[i] = r.expr(e.Args[i])
+					}
+					return e
+				}
+			case "new":
+				if len(e.Args) == 1 {
+					e.Args[0] = r.typ(e.Args[0])
+					return e
+				}
+			case "close":
+				if len(e.Args) == 1 {
+					return r.call(r.expr(e.Args[0]), "Close")
+				}
+			case "len", "cap":
+				if len(e.Args) == 1 && r.isChanExpr(e.Args[0]) {
+					m := "Len"
+					if id.Name == "cap" {
+						m = "Cap"
+					}
+					return r.call(r.expr(e.Args[0]), m)
+				}
+			}
+		}
+		e.Fun = r.expr(e.Fun)
+		for i := range e.Args {
+			e.Args[i] = r.expr(e.Args[i])
+		}
+	case *ast.ParenExpr:
+		e.X = r.expr(e.X)
+	case *ast.SelectorExpr:
+		e.X = r.expr(e.X)
+	case *ast.IndexExpr:
+		e.X = r.expr(e.X)
+		e.Index = r.expr(e.Index)
+	case *ast.IndexListExpr:
+		e.X = r.expr(e.X)
+		for i := range e.Indices {
+			e.Indices[i] = r.expr(e.Indices[i])
+		}
+	case *ast.SliceExpr:
+		e.X = r.expr(e.X)
+		e.Low, e.High, e.Max = r.expr(e.Low), r.expr(e.High), r.expr(e.Max)
+	case *ast.StarExpr:
+		e.X = r.expr(e.X)
+	case *ast.TypeAssertExpr:
+		e.X = r.expr(e.X)
+		e.Type = r.typ(e.Type)
+	case *ast.KeyValueExpr:
+		e.Key = r.expr(e.Key)
+		e.Value = r.expr(e.Value)
+	case *ast.CompositeLit:
+		e.Type = r.typ(e.Type)
+		for i := range e.Elts {
+			e.Elts[i] = r.expr(e.Elts[i])
+		}
+	case *ast.FuncLit:
+		r.funcType(e.Type)
+		e.Body = r.block(e.Body)
+	case *ast.ChanType, *ast.ArrayType, *ast.MapType, *ast.FuncType, *ast.StructType, *ast.InterfaceType, *ast.Ellipsis:
+		return r.typ(e)
+	}
+	return e
+}
+
+func (r *rw) exprs(es []ast.Expr) {
+	for i := range es {
+		es[i] = r.expr(es[i])
+	}
+}
+
+func (r *rw) block(b *ast.BlockStmt) *ast.BlockStmt {
+	if b == nil {
+		return nil
+	}
+	b.List = r.stmts(b.List)
+	return b
+}
+
+func (r *rw) stmts(ss []ast.Stmt) []ast.Stmt {
+	for i := range ss {
+		ss[i] = r.stmt(ss[i])
+	}
+	return ss
+}
+
+func (r *rw) stmt(s ast.Stmt) ast.Stmt {
+	switch s := s.(type) {
+	case nil:
+		return nil
+	case *ast.SendStmt:
+		return &ast.ExprStmt{X: r.call(r.expr(s.Chan), "Send", r.expr(s.Value))}
+	case *ast.ExprStmt:
+		s.X = r.expr(s.X)
+	case *ast.AssignStmt:
+		if len(s.Lhs) == 2 && len(s.Rhs) == 1 {
+			if u, ok := s.Rhs[0].(*ast.UnaryExpr); ok && u.Op == token.ARROW {
+				r.exprs(s.Lhs)
+				s.Rhs[0] = r.call(r.expr(u.X), "Recv2")
+				return s
+			}
+		}
+		r.exprs(s.Lhs)
+		r.exprs(s.Rhs)
+	case *ast.DeclStmt:
+		if gd, ok := s.Decl.(*ast.GenDecl); ok {
+			r.genDecl(gd)
+		}
+	case *ast.GoStmt:
+		return r.goStmt(s)
+	case *ast.DeferStmt:
+		s.Call = r.expr(s.Call).(*ast.CallExpr)
+	case *ast.ReturnStmt:
+		r.exprs(s.Results)
+	case *ast.BlockStmt:
+		return r.block(s)
+	case *ast.IfStmt:
+		s.Init = r.stmt(s.Init)
+		s.Cond = r.expr(s.Cond)
+		s.Body = r.block(s.Body)
+		s.Else = r.stmt(s.Else)
+	case *ast.ForStmt:
+		s.Init = r.stmt(s.Init)
+		s.Cond = r.expr(s.Cond)
+		s.Post = r.stmt(s.Post)
+		s.Body = r.block(s.Body)
+	case *ast.RangeStmt:
+		return r.rangeStmt(s)
+	case *ast.SwitchStmt:
+		s.Init = r.stmt(s.Init)
+		s.Tag = r.expr(s.Tag)
+		s.Body = r.block(s.Body)
+	case *ast.TypeSwitchStmt:
+		s.Init = r.stmt(s.Init)
+		s.Assign = r.stmt(s.Assign)
+		s.Body = r.block(s.Body)
+	case *ast.CaseClause:
+		for i := range s.List {
+			s.List[i] = r.expr(s.List[i])
+		}
+		s.Body = r.stmts(s.Body)
+	case *ast.SelectStmt:
+		return r.selectStmt(s, "")
+	case *ast.LabeledStmt:
+		if ss, ok := s.Stmt.(*ast.SelectStmt); ok {
+			// the label must stay on a statement that break can target
+			return r.selectStmt(ss, s.Label.Name)
+		}
+		s.Stmt = r.stmt(s.Stmt)
+	case *ast.IncDecStmt:
+		s.X = r.expr(s.X)
+	}
+	return s
+}
+
+// goStmt: arguments are evaluated now, the call runs in a managed goroutine.
+func (r *rw) goStmt(s *ast.GoStmt) ast.Stmt {
+	call := s.Call
+	call.Fun = r.expr(call.Fun)
+	var pre []ast.Stmt
+	for i, a := range call.Args {
+		a = r.expr(a)
+		switch a.(type) {
+		case *ast.BasicLit:
+			call.Args[i] = a
+			continue
+		}
+		name := r.fresh("a")
+		pre = append(pre, &ast.AssignStmt{Lhs: []ast.Expr{ast.NewIdent(name)}, Tok: token.DEFINE, Rhs: []ast.Expr{a}})
+		call.Args[i] = ast.NewIdent(name)
+	}
+	// a function value that is not a literal or plain identifier is evaluated now too
+	switch call.Fun.(type) {
+	case *ast.FuncLit, *ast.Ident:
+	case *ast.SelectorExpr:
+		// method value or package function: evaluated at call time; receivers in the rewritten files are not reassigned
+	default:
+		name := r.fresh("f")
+		pre = append(pre, &ast.AssignStmt{Lhs: []ast.Expr{ast.NewIdent(name)}, Tok: token.DEFINE, Rhs: []ast.Expr{call.Fun}})
+		call.Fun = ast.NewIdent(name)
+	}
+	spawn := &ast.ExprStmt{X: &ast.CallExpr{Fun: r.sched("Go"), Args: []ast.Expr{
+		&ast.FuncLit{Type: &ast.FuncType{Params: &ast.FieldList{}}, Body: &ast.BlockStmt{List: []ast.Stmt{&ast.ExprStmt{X: call}}}},
+	}}}
+	if len(pre) == 0 {
+		return spawn
+	}
+	return &ast.BlockStmt{List: append(pre, spawn)}
+}
+
+func (r *rw) rangeStmt(s *ast.RangeStmt) ast.Stmt {
+	if !r.isChanExpr(s.X) {
+		s.Key = r.expr(s.Key)
+		s.Value = r.expr(s.Value)
+		s.X = r.expr(s.X)
+		s.Body = r.block(s.Body)
+		return s
+	}
+	okName := r.fresh("ok")
+	recv := r.call(r.expr(s.X), "Recv2")
+	var first ast.Stmt
+	var pre []ast.Stmt
+	switch {
+	case s.Key == nil:
+		first = &ast.AssignStmt{Lhs: []ast.Expr{ast.NewIdent("_"), ast.NewIdent(okName)}, Tok: token.DEFINE, Rhs: []ast.Expr{recv}}
+	case s.Tok == token.DEFINE:
+		first = &ast.AssignStmt{Lhs: []ast.Expr{s.Key, ast.NewIdent(okName)}, Tok: token.DEFINE, Rhs: []ast.Expr{recv}}
+	default:
+		pre = append(pre, &ast.DeclStmt{Decl: &ast.GenDecl{Tok: token.VAR, Specs: []ast.Spec{&ast.ValueSpec{Names: []*ast.Ident{ast.NewIdent(okName)}, Type: ast.NewIdent("bool")}}}})
+		first = &ast.AssignStmt{Lhs: []ast.Expr{r.expr(s.Key), ast.NewIdent(okName)}, Tok: token.ASSIGN, Rhs: []ast.Expr{recv}}
+	}
+	brk := &ast.IfStmt{Cond: &ast.UnaryExpr{Op: token.NOT, X: ast.NewIdent(okName)}, Body: &ast.BlockStmt{List: []ast.Stmt{&ast.BranchStmt{Tok: token.BREAK}}}}
+	body := r.block(s.Body)
+	loop := &ast.ForStmt{Body: &ast.BlockStmt{List: append([]ast.Stmt{first, brk}, body.List...)}}
+	if len(pre) == 0 {
+		return loop
+	}
+	// note: a label on this statement would move to the block; not used in the rewritten files
+	return &ast.BlockStmt{List: append(pre, loop)}
+}
+
+func (r *rw) selectStmt(s *ast.SelectStmt, label string) ast.Stmt {
+	var pre []ast.Stmt
+	var names []ast.Expr
+	hasDefault := false
+	sw := &ast.SwitchStmt{Body: &ast.BlockStmt{}}
+	idx := 0
+	for _, c := range s.Body.List {
+		cc := c.(*ast.CommClause)
+		body := r.stmts(cc.Body)
+		if cc.Comm == nil {
+			hasDefault = true
+			sw.Body.List = append(sw.Body.List, &ast.CaseClause{List: nil, Body: body})
+			continue
+		}
+		name := r.fresh("c")
+		var init ast.Expr
+		var bind ast.Stmt
+		switch cm := cc.Comm.(type) {
+		case *ast.SendStmt:
+			init = &ast.CallExpr{Fun: r.sched("SendCase"), Args: []ast.Expr{r.expr(cm.Chan), r.expr(cm.Value)}}
+		case *ast.ExprStmt:
+			u, ok := cm.X.(*ast.UnaryExpr)
+			if !ok || u.Op != token.ARROW {
+				r.fail(cm, "unsupported select case")
+				return s
+			}
+			init = &ast.CallExpr{Fun: r.sched("RecvCase"), Args: []ast.Expr{r.expr(u.X)}}
+		case *ast.AssignStmt:
+			u, ok := cm.Rhs[0].(*ast.UnaryExpr)
+			if !ok || u.Op != token.ARROW || len(cm.Rhs) != 1 {
+				r.fail(cm, "unsupported select case")
+				return s
+			}
+			init = &ast.CallExpr{Fun: r.sched("RecvCase"), Args: []ast.Expr{r.expr(u.X)}}
+			rhs := []ast.Expr{&ast.SelectorExpr{X: ast.NewIdent(name), Sel: ast.NewIdent("V")}}
+			if len(cm.Lhs) == 2 {
+				rhs = append(rhs, &ast.SelectorExpr{X: ast.NewIdent(name), Sel: ast.NewIdent("OK")})
+			}
+			lhs := cm.Lhs
+			if cm.Tok == token.ASSIGN {
+				r.exprs(lhs)
+			}
+			bind = &ast.AssignStmt{Lhs: lhs, Tok: cm.Tok, Rhs: rhs}
+		default:
+			r.fail(cc, "unsupported select case")
+			return s
+		}
+		pre = append(pre, &ast.AssignStmt{Lhs: []ast.Expr{ast.NewIdent(name)}, Tok: token.DEFINE, Rhs: []ast.Expr{init}})
+		names = append(names, ast.NewIdent(name))
+		if bind != nil {
+			body = append([]ast.Stmt{bind}, body...)
+			// silence "declared and not used" when the original only used the blank form
+			if as := bind.(*ast.AssignStmt); as.Tok == token.DEFINE {
+				for _, l := range as.Lhs {
+					if id, ok := l.(*ast.Ident); ok && id.Name != "_" {
+						body = append(body[:1], append([]ast.Stmt{&ast.AssignStmt{Lhs: []ast.Expr{ast.NewIdent("_")}, Tok: token.ASSIGN, Rhs: []ast.Expr{ast.NewIdent(id.Name)}}}, body[1:]...)...)
+					}
+				}
+			}
+		}
+		sw.Body.List = append(sw.Body.List, &ast.CaseClause{List: []ast.Expr{&ast.BasicLit{Kind: token.INT, Value: strconv.Itoa(idx)}}, Body: body})
+		idx++
+	}
+	hd := "false"
+	if hasDefault {
+		hd = "true"
+	}
+	sw.Tag = &ast.CallExpr{Fun: r.sched("Select"), Args: append([]ast.Expr{ast.NewIdent(hd)}, names...)}
+	var swStmt ast.Stmt = sw
+	if label != "" {
+		swStmt = &ast.LabeledStmt{Label: ast.NewIdent(label), Stmt: sw}
+	}
+	return &ast.BlockStmt{List: append(pre, swStmt)}
 }
